@@ -14,10 +14,12 @@ import (
 	"log"
 	"os"
 	"path/filepath"
+	"reflect"
 	"sort"
 	"strings"
 	"sync"
 	"time"
+	"unsafe"
 
 	"github.com/VKCOM/statshouse/internal/data_model/gen2/tlmetadata"
 	"github.com/VKCOM/statshouse/internal/data_model/gen2/tlstatshouse"
@@ -150,12 +152,11 @@ func (e *vpmetaEnv) Close(t vpT) {
 	if e.db == nil {
 		return
 	}
-	err := e.db.Close()
+	err := vpmetaCloseDB(e.db)
 	e.db = nil
 	if err != nil {
 		if errors.Is(err, context.DeadlineExceeded) {
-			// DBV2.Close gives the engine 5 s of real time; on an overloaded machine that is not a verdict
-			vpmetaFail(t, "VP-INCONCLUSIVE Close did not finish within the 5 s DBV2.Close allows (overloaded machine?): %v", err)
+			vpmetaFail(t, "VP-INCONCLUSIVE Close did not finish within %v (overloaded machine?): %v", vpmetaCloseTimeout, err)
 		}
 		vpmetaFail(t, "Close: %v", err)
 	}
@@ -164,8 +165,40 @@ func (e *vpmetaEnv) Close(t vpT) {
 // CloseQuiet is for deferred cleanup.
 func (e *vpmetaEnv) CloseQuiet() {
 	if e != nil && e.db != nil {
-		_ = e.db.Close()
+		_ = vpmetaCloseDB(e.db)
 		e.db = nil
+	}
+}
+
+const vpmetaCloseTimeout = 120 * time.Second
+
+// vpmetaCloseDB is DBV2.Close with more patience: DBV2.Close gives the engine 5 s of real time,
+// which an overloaded machine (whole-process stalls of several seconds were measured) does not always
+// grant; the real-time limit is not part of the checked properties.
+func vpmetaCloseDB(db *DBV2) error {
+	ctx, cancel := context.WithTimeout(context.Background(), vpmetaCloseTimeout)
+	defer cancel()
+	if err := db.eng.Close(ctx); err != nil {
+		return fmt.Errorf("failed to close db: %w", err)
+	}
+	db.cancel()
+	vpmetaStopEngine(db.eng)
+	return nil
+}
+
+// vpmetaStopEngine cancels the context of a CLOSED engine. sqlite.Engine never calls its own stop
+// function, so the txLoop goroutine of every closed engine keeps waking once a second and calls
+// into SQLite with a NULL handle; a process that opens thousands of engines (this harness) ends up
+// with thousands of threads parked in the SQLite log callback and dies in pthread_create. A
+// production process closes one engine and exits, so this is harness hygiene, not a checked property.
+func vpmetaStopEngine(eng *sqlite.Engine) {
+	f := reflect.ValueOf(eng).Elem().FieldByName("stop")
+	if !f.IsValid() || f.Kind() != reflect.Func || f.IsNil() {
+		return
+	}
+	stop, ok := reflect.NewAt(f.Type(), unsafe.Pointer(f.UnsafeAddr())).Elem().Interface().(func())
+	if ok && stop != nil {
+		stop()
 	}
 }
 
